@@ -50,3 +50,28 @@ Theorem C13_policy_independent_of_queue_flag : forall be fct p c,
   chain_continue (Cfg be fct p true) c = chain_continue (Cfg be fct p false) c.
 Proof. reflexivity. Qed.
 Print Assumptions C13_policy_independent_of_queue_flag.
+
+(* ---- back and back11 in the model ---- *)
+From Msm Require Import Lemmas_Equiv.
+
+(* for every definition without own internal tables (where finding F7 separates the two engines), every compile policy,
+   switch policy and queue option, and every list of operations with any plans and guard valuations: the interpreter
+   produces the same traces and the same reported configurations for back and for back11.  The proof is by conversion:
+   it only goes through while the tables the translator regenerates for the two engines (Generated.v) coincide. *)
+Theorem C13_back_back11_same_runs : forall fct pol qb md l, no_internal (md_root md) ->
+  run (Cfg Back fct pol qb) md l = run (Cfg Back11 fct pol qb) md l.
+Proof. exact run_back_back11. Qed.
+Print Assumptions C13_back_back11_same_runs.
+
+Theorem C13_back_back11_same_processor : forall fct pol qb parents mc contained, no_internal mc ->
+  build (Cfg Back fct pol qb) parents contained mc = build (Cfg Back11 fct pol qb) parents contained mc.
+Proof. intros. apply build_back_back11. assumption. Qed.
+Print Assumptions C13_back_back11_same_processor.
+
+(* the hypothesis is satisfiable by nested machines *)
+Example C13_no_internal_example :
+  no_internal (Machine [State KSimple None [] [] [] 0;
+                        State KSub (Some (Machine [State KSimple None [] [] [] 0; State KSimple None [] [] [] 0] [0]
+                                            [Row 2 0 (TrEv 5) (TgState 1) true ActCall None] [] HAlways)) [] [] [] 0]
+                       [0] [Row 1 0 (TrEv 4) (TgState 1) false ActCall None] [] HNone).
+Proof. cbn. repeat split. Qed.
